@@ -301,6 +301,17 @@ MALFORMED = [  # every one of these must be answered `bad-op` by both sides and 
 ]
 
 
+_CYC = ["g1f3", "g8f6", "f3g1", "f6g8"]
+_L1 = (_CYC * 27)[:106]
+_L2 = _L1[:98] + ["b1c3", "f6g8", "c3b1", "b8c6", "f3g1", "c6b8", "g1f3", "g8f6"]
+CORPUS_GEN = [  # corpus entry 2: one game with 106 reversible plies (+ a variation): Position::bookHash() saturates the half-move
+    "bookgen new 100 200 50",   # clock at 100, so without the clock guard in Book::addToBook ply 104 aliases ply 100 and the graph gets a cycle
+    "bookgen importline 300 " + ",".join(_L1) + "/" + ",".join(_L2),
+    "bookgen set 65535 1 1 -20 5", "bookgen set 30000 1 2 35 5", "bookgen set 0 1 2 10 5",
+    "bookgen reload", "bookgen dump",
+]
+
+
 def elaborate(ctx, gen_lines):
     bdir = vlib.cxx_build("plain", ("vharness",))
     rc, out, err = vlib.run_lines(os.path.join(bdir, "vharness"), gen_lines)
@@ -460,6 +471,12 @@ def run(ctx):
     mal.append("book dump")
     lines = WITNESS + mal
     run_block(ctx, "corpus-and-malformed", lines, [(0, len(WITNESS)), (len(WITNESS), len(lines))])
+    c2 = elaborate(ctx, CORPUS_GEN)
+    if c2 is None: return
+    if any(not l.startswith("book ") for l in c2):
+        ctx.violation("elaboration of the corpus import failed", {"kind": "elaborate", "input": CORPUS_GEN, "output": [l[:80] for l in c2]}, no_input=True)
+        return
+    run_block(ctx, "corpus-import-beyond-clock-100", c2, [(0, len(c2))], do_shrink=False)
     run_records(ctx, quick)
     # random histories
     gen_lines, gs = [], []
